@@ -302,6 +302,11 @@ func runC18(w *fw.Worker) {
 			if mask&4 != 0 { // env
 				n++
 				text, _ := c18Set(&want, k, n)
+				if k == 1 && n%4 == 0 {
+					// present but empty: the environment sets the string leaf to "", which outranks file and default
+					text, want.Beta = "", ""
+					w.Count("env_sets_a_string_leaf_to_the_empty_string", 1)
+				}
 				os.Setenv(c18Leaves[k].env, text)
 				layers++
 			}
